@@ -72,10 +72,10 @@ TEXT = {
   "technique": "Lean 4 + Mathlib theorems over R/Int (floor arithmetic, omega) + translator + correspondence + falsifier",
  },
  "C16": {
-  "text": "Proved over R for every latitude/longitude: the reported angle is atan2(K.west, K.north) with K the Kaaba's unit vector and north/west the local tangent unit vectors at the observer (3-D vector formulation; uses cos(latK)>0), i.e. the bearing counted from true north towards west; it lies in (-180,180]; the rotation label is CW iff negative; the function has no elevation input; the Kaaba constants are within 1e-4 of 21.4233N 39.8233E. Falsifier: independent vector bearing within 1e-6 deg, text rendering, elevation independence.",
+  "text": "Proved over R for every latitude/longitude: the reported angle is atan2(K.west, K.north) with K the Kaaba's unit vector and north/west the local tangent unit vectors at the observer (3-D vector formulation; uses cos(latK)>0), i.e. the bearing counted from true north towards west; it lies in (-180,180]; the rotation label is CW iff negative; the function has no elevation input; the Kaaba constants are within 1e-4 of 21.4233N 39.8233E. The printed text is modelled at the bit level (exact binary64 value rounded half-even to tenths + degree sign + label) and PROVED to show the magnitude within 0.05 and the label CW exactly when the exact value is below zero; the model text is compared with Rust's formatter on every one-decimal rounding boundary below 400 incl. exact ties, carries, subnormals, huge values and random patterns, and with the real Qibla::to_string(). Falsifier: independent vector bearing within 1e-6 deg, text rendering, elevation independence.",
   "design_ref": "DESIGN.md §7 C16",
   "note": "atan2 is modelled by Complex.arg; one open known finding: exactly on the Kaaba's antimeridian floats give -180.0 instead of +180.0.",
-  "technique": "Lean 4 + Mathlib theorem over R (Complex.arg_real_mul) + translator + bit-level correspondence + falsifier",
+  "technique": "Lean 4 + Mathlib theorems over R (Complex.arg_real_mul) and over the binary64 bit model (printed text) + translator + bit-level correspondence + falsifier",
  },
  "C20": {
   "text": "PARTIAL. Proved for every scalar type: the day's computation factors through the Julian Day object of local midnight (no other use of the zone offset); over R: that Julian Day moves by -d/24; get_hour_angle, the transit fraction and the parallax hour angle depend on longitude and sidereal time only through their sum (360-periodicity of the normalisations proved), so a site moved east by x with sidereal times lower by x has identical hours. Not proved: the remaining 10 s (the Sun's motion during the shifted interval) - metamorphic falsifier through the public API.",
